@@ -208,6 +208,7 @@ func runC05Visible(c *eng.Ctx) {
 	sort.Strings(pn)
 	c.Check("R9", "tsdb", "producers of isolation-wrapped head chunks found (the literal and what returns it)", len(pn) >= 2, "", strings.Join(pn, ", "))
 	sites := 0
+	tests := map[*types.Func]bool{} // functions a producer's result is passed through before it is returned
 	for _, f := range fns {
 		sig := f.fs.Obj.Type().(*types.Signature)
 		if sig.Results().Len() < 2 || !isChunk(sig.Results().At(0).Type()) || !isIterable(sig.Results().At(1).Type()) {
@@ -231,6 +232,22 @@ func runC05Visible(c *eng.Ctx) {
 		if len(fromProducer) == 0 {
 			continue
 		}
+		ast.Inspect(f.fs.Decl.Body, func(x ast.Node) bool {
+			call, ok := x.(*ast.CallExpr)
+			if !ok {
+				return true
+			}
+			for _, a := range call.Args {
+				if id, ok := ast.Unparen(a).(*ast.Ident); ok {
+					if _, ok := fromProducer[f.fs.Pkg.TypesInfo.ObjectOf(id)]; ok {
+						if g := calleeOf(f.fs, call); g != nil && !producers[g] && g.Pkg() == f.fs.Obj.Pkg() {
+							tests[g] = true
+						}
+					}
+				}
+			}
+			return true
+		})
 		var bad []string
 		badPos := f.fs.Decl.Pos()
 		ast.Inspect(f.fs.Decl.Body, func(x ast.Node) bool {
@@ -272,39 +289,41 @@ func runC05Visible(c *eng.Ctx) {
 		okLit = okLit && found
 	}
 	c.Check("R9", cfs.Where(), "the wrapper records, under the series lock, whether the reader's isolation state hides samples of the chunk (visibleSamples(…, isoState) < NumSamples())", okLit, p.Pos(cfs.Body.Pos()), fmt.Sprint(lits))
-	if p.TryFunc("tsdb:chunkOrVisiblePart") == nil || flagField == "" {
-		c.Fail("R9", "tsdb:chunkOrVisiblePart", "the visibility test exists", "", "no function tests the wrapper's flag")
+	if len(tests) == 0 || flagField == "" {
+		c.Fail("R9", "tsdb", "the visibility test exists (a function the producers' results are passed through before they are returned)", "", "no function tests the wrapper's flag")
 		return
 	}
-	vt := c.Fn("tsdb:chunkOrVisiblePart")
-	n := 0
-	ast.Inspect(vt.Body, func(x ast.Node) bool {
-		rs, ok := x.(*ast.ReturnStmt)
-		if !ok || len(rs.Results) != 2 || nodeText(rs.Results[0]) != "nil" {
-			return true
-		}
-		// the only conditions: the value is a wrapper (type assertion ok) and its flag is set
-		flagged, other := 0, 0
-		for _, cd := range vt.CondsOf(rs) {
-			for _, part := range strings.Split(strings.TrimSuffix(cd, "=T"), "&&") {
-				part = strings.TrimSpace(part)
-				switch {
-				case !strings.HasSuffix(cd, "=T"):
-					other++
-				case part == "ok":
-				case strings.HasSuffix(part, "."+flagField) && !strings.Contains(part, "!"):
-					flagged++
-				default:
-					other++
+	for g := range tests {
+		vt := c.Fn(eng.FuncName(g))
+		n := 0
+		ast.Inspect(vt.Body, func(x ast.Node) bool {
+			rs, ok := x.(*ast.ReturnStmt)
+			if !ok || len(rs.Results) != 2 || nodeText(rs.Results[0]) != "nil" {
+				return true
+			}
+			// the only conditions: the value is a wrapper (type assertion ok) and its flag is set
+			flagged, other := 0, 0
+			for _, cd := range vt.CondsOf(rs) {
+				for _, part := range strings.Split(strings.TrimSuffix(cd, "=T"), "&&") {
+					part = strings.TrimSpace(part)
+					switch {
+					case !strings.HasSuffix(cd, "=T"):
+						other++
+					case part == "ok":
+					case strings.HasSuffix(part, "."+flagField) && !strings.Contains(part, "!"):
+						flagged++
+					default:
+						other++
+					}
 				}
 			}
-		}
-		if flagged == 1 && other == 0 {
-			n++
-		}
-		return true
-	})
-	c.Check("R9", vt.Where(), "a wrapper whose flag is set leaves as the iterable, with no chunk", n == 1, p.Pos(vt.Body.Pos()), fmt.Sprint(n))
+			if flagged == 1 && other == 0 {
+				n++
+			}
+			return true
+		})
+		c.Check("R9", vt.Where(), "a wrapper whose flag is set leaves as the iterable, with no chunk", n == 1, p.Pos(vt.Body.Pos()), fmt.Sprint(n))
+	}
 	it := c.Fn("tsdb:memSeries.iterator")
 	it.Has("R9", p.Call("tsdb:memSeries.visibleSamples"), 1)
 }
